@@ -65,7 +65,15 @@ impl<'a> Cigar<'a> {
             if src.is_empty() {
                 None
             } else {
-                Some(parse_op(&mut src))
+                let result = parse_op(&mut src);
+
+                // An invalid op is not consumed. Stop after the first error rather than
+                // returning it forever.
+                if result.is_err() {
+                    src = &[];
+                }
+
+                Some(result)
             }
         })
     }
@@ -124,6 +132,27 @@ impl<'a> TryFrom<Cigar<'a>> for crate::alignment::record_buf::Cigar {
 mod tests {
     use super::*;
     use crate::alignment::record::Cigar as _;
+
+    #[test]
+    fn test_iter_with_an_invalid_op() {
+        let cigar = Cigar::new(b"8M13Z21M");
+        let mut iter = cigar.iter();
+        assert!(matches!(iter.next(), Some(Ok(_))));
+        assert!(matches!(iter.next(), Some(Err(_))));
+        assert!(iter.next().is_none());
+
+        let cigar = Cigar::new(b"13");
+        let mut iter = cigar.iter();
+        assert!(matches!(iter.next(), Some(Err(_))));
+        assert!(iter.next().is_none());
+    }
+
+    #[test]
+    fn test_fmt_with_an_invalid_op() {
+        let cigar = Cigar::new(b"8M*");
+        let s = format!("{cigar:?}");
+        assert!(s.starts_with("[Ok(Op { kind: Match, len: 8 }), Err("));
+    }
 
     #[test]
     fn test_len() {
